@@ -58,7 +58,8 @@ class Scenario:
         from stubs import env as E
         if not self._fail_now():
             return 0
-        self.outcome = self.ctx.choose(self.tag + "sgio_outcome", ["good", "check-condition", "unspecified-error", "oserror"])
+        self.outcome = self.ctx.choose(self.tag + "sgio_outcome", ["good", "check-condition", "unspecified-error", "oserror",
+                                                                   "typeerror"])
         if self.outcome == 0:
             return 0
         self._poison(call.datain)
@@ -67,8 +68,10 @@ class Scenario:
             self.raised = E.CheckConditionError(self.sense)
         elif self.outcome == 2:
             self.raised = E.UnspecifiedError("transport error (stub)")
-        else:
+        elif self.outcome == 3:
             self.raised = OSError(5, "Input/output error (stub)")
+        else:
+            self.raised = TypeError("a bytes-like object is required (stub binding, raised after taking the command)")
         raise self.raised
 
 
@@ -213,7 +216,7 @@ def h_facade(ctx, transport, cmd, good, nsense):
 def obligations(tier):
     from symx.harness import Ob
     obs = []
-    ns = [18] if tier == "quick" else [18, 4, 32, 252]
+    ns = [18, 24] if tier == "quick" else [18, 4, 24, 32, 252]
     for tr in ("sgio", "iscsi"):
         for raw in (False, True):
             for good in ((0, 2) if tier == "quick" else (0, 1, 2, 3)):
